@@ -1,9 +1,77 @@
-import Hpl.Model.Rewrite.Refactor
-import Hpl.Spec.Eval
-/-! # C13 — predicate combinators and reference substitutions are semantically exact (theorems: in progress) -/
-namespace Hpl
+import Hpl.Props.C09
+import Hpl.Lemmas.Refs
+/-!
+# C13 — predicate combinators and reference substitutions are semantically exact
 
-/-- **C13**: the vacuous truth is the identity of `join`, the contradiction its annihilator -/
+Model: `Pred.negate`, `Pred.join`, `substE` (`replace`/`reshape`), `replaceThisWithVar*`, `replaceVarWithThis*`,
+`mkSimpleEvent` (`Hpl/Model/Build.lean`, `Hpl/Model/Rewrite/Refactor.lean`). Spec: `eval` / `truth`.
+-/
+namespace Hpl
+section
+variable (opq : Opaque)
+
+/-- truth value of a predicate (errors collapsed) -/
+def predTruth (ρ : Env) : Pred → Option Bool
+  | .expr e => truth opq ρ e
+  | .vtrue => some true
+  | .vfalse => some false
+
+theorem predTruth_eq (ρ : Env) (p : Pred) : predTruth opq ρ p = (evalPred opq ρ p).toOption := by
+  cases p <;> rfl
+
+theorem mkPred_truth {e : Expr} {p : Pred} (h : mkPred e = .ok p) (ρ : Env) : predTruth opq ρ p = truth opq ρ e := by
+  unfold mkPred at h
+  obtain ⟨e', he', h⟩ := bind_ok h
+  split at h
+  · cases h
+    simp only [predTruth, truth, castE_eval opq he']
+  · cases h
+
+/-- **C13**: `negate()` denotes logical negation -/
+theorem negate_sem (p q : Pred) (h : p.negate = .ok q) (ρ : Env) :
+    predTruth opq ρ q = (predTruth opq ρ p).map (!·) := by
+  cases p with
+  | vtrue => simp only [Pred.negate] at h; cases h; rfl
+  | vfalse => simp only [Pred.negate] at h; cases h; rfl
+  | expr e =>
+    have general : ∀ n, mkNot e = .ok n → mkPred n = .ok q → predTruth opq ρ q = (predTruth opq ρ (.expr e)).map (!·) := by
+      intro n hn hq
+      rw [mkPred_truth opq hq, truth_of_like opq (mkNot_like opq hn), truth_not]; rfl
+    cases e with
+    | un t op a =>
+      simp only [Pred.negate] at h
+      split at h
+      · rename_i hop
+        have := beq_eq hop; subst this
+        rw [mkPred_truth opq h]
+        simp only [predTruth, truth_not]
+        cases truth opq ρ a <;> simp
+      · obtain ⟨n, hn, h⟩ := bind_ok h
+        exact general n hn h
+    | lit _ _ _ | this _ | var _ _ | set _ _ | range _ _ _ _ _ | quant _ _ _ _ _ | bin _ _ _ _ | call _ _ _
+    | field _ _ _ | index _ _ _ =>
+      simp only [Pred.negate] at h
+      obtain ⟨n, hn, h⟩ := bind_ok h
+      exact general n hn h
+
+/-- **C13**: `join()` denotes conjunction wherever both operands are defined; the vacuous truth is its identity and the
+    contradiction its annihilator -/
+theorem join_sem (p q r : Pred) (h : p.join q = .ok r) (ρ : Env) (a b : Bool)
+    (ha : predTruth opq ρ p = some a) (hb : predTruth opq ρ q = some b) : predTruth opq ρ r = some (a && b) := by
+  cases p with
+  | vtrue => simp only [Pred.join] at h; cases h; cases ha; simpa using hb
+  | vfalse => simp only [Pred.join] at h; cases h; cases ha; rfl
+  | expr e =>
+    cases q with
+    | vtrue => simp only [Pred.join] at h; cases h; cases hb; simpa using ha
+    | vfalse => simp only [Pred.join] at h; cases h; cases hb; simp [predTruth]
+    | expr e' =>
+      simp only [Pred.join] at h
+      obtain ⟨c, hc, h⟩ := bind_ok h
+      rw [mkPred_truth opq h, truth_of_like opq (mkAnd_like opq hc), truth_and]
+      simp only [predTruth] at ha hb
+      rw [ha, hb]; rfl
+
 theorem join_identity_annihilator (p : Pred) :
     Pred.join .vtrue p = .ok p ∧ Pred.join .vfalse p = .ok .vfalse ∧
     (∀ e, p = .expr e → Pred.join p .vtrue = .ok p ∧ Pred.join p .vfalse = .ok .vfalse) := by
@@ -11,5 +79,374 @@ theorem join_identity_annihilator (p : Pred) :
   rintro e rfl; exact ⟨rfl, rfl⟩
 
 theorem negate_vacuous : Pred.negate .vtrue = .ok .vfalse ∧ Pred.negate .vfalse = .ok .vtrue := ⟨rfl, rfl⟩
+
+
+/-! ## substitutions -/
+/-- no quantifier of the tree binds `x` (the alias is "not captured by a quantifier") -/
+def NoBind (x : String) (e : Expr) : Prop := ∀ v ∈ e.preorder, bindsName x v = false
+def NoBindL (x : String) (es : ExprList) : Prop := ∀ v ∈ es.preorder, bindsName x v = false
+
+theorem mkUn_eval' {op : String} {a e : Expr} (h : mkUn op a = .ok e) (ρ : Env) (t : DataType) :
+    eval opq ρ e = eval opq ρ (.un t op a) := by rw [mkUn_eval opq h]; simp only [eval]
+theorem mkBin_eval' {op : String} {a b e : Expr} (h : mkBin op a b = .ok e) (ρ : Env) (t : DataType) :
+    eval opq ρ e = eval opq ρ (.bin t op a b) := by rw [mkBin_eval opq h]; simp only [eval]
+theorem mkCall_eval' {f : String} {args : ExprList} {e : Expr} (h : mkCall f args = .ok e) (ρ : Env) (t : DataType) :
+    eval opq ρ e = eval opq ρ (.call t f args) := by rw [mkCall_eval opq h]; simp only [eval]
+theorem mkFieldT_eval {t : DataType} {m e : Expr} {n : String} (h : mkFieldT t m n = .ok e) (ρ : Env) :
+    eval opq ρ e = eval opq ρ (.field t m n) := by
+  unfold mkFieldT at h
+  split at h
+  · cases h
+  · obtain ⟨m', hm', h⟩ := bind_ok h
+    cases h; simp only [eval, castE_eval opq hm']
+theorem mkIndexT_eval {t : DataType} {a i e : Expr} (h : mkIndexT t a i = .ok e) (ρ : Env) :
+    eval opq ρ e = eval opq ρ (.index t a i) := by
+  unfold mkIndexT at h
+  split at h
+  · cases h
+  · obtain ⟨a', ha', h⟩ := bind_ok h
+    obtain ⟨i', hi', h⟩ := bind_ok h
+    cases h; simp only [eval, castE_eval opq ha', castE_eval opq hi']
+
+section
+variable (test : Expr → Bool) (other : Expr) (x : String) (Inv : Env → Prop)
+  (hbind : ∀ ρ y v, Inv ρ → y ≠ x → Inv (ρ.bind y v))
+  (hrep : ∀ ρ n, Inv ρ → test n = true → eval opq ρ other = eval opq ρ n)
+include hbind hrep
+
+mutual
+/-- replacing every node satisfying `test` by `other` preserves the value under every valuation satisfying the invariant
+    that makes `other` evaluate like the replaced nodes -/
+theorem substE_sem : ∀ (e e' : Expr), substE test other e = .ok e' → NoBind x e → ∀ ρ, Inv ρ → eval opq ρ e' = eval opq ρ e
+  | .lit t k v, e', h, _, ρ, hi => by
+      simp only [substE] at h; cases h
+      split
+      · rename_i ht; exact hrep ρ _ hi ht
+      · rfl
+  | .this t, e', h, _, ρ, hi => by
+      simp only [substE] at h; cases h
+      split
+      · rename_i ht; exact hrep ρ _ hi ht
+      · rfl
+  | .var t y, e', h, _, ρ, hi => by
+      simp only [substE] at h; cases h
+      split
+      · rename_i ht; exact hrep ρ _ hi ht
+      · rfl
+  | .set t vs, e', h, hn, ρ, hi => by
+      simp only [substE] at h
+      split at h
+      · rename_i ht; cases h; exact hrep ρ _ hi ht
+      · obtain ⟨vs', hvs', h⟩ := bind_ok h
+        have ih := substL_sem vs vs' hvs' (fun v hv => hn v (by simp [Expr.preorder, hv])) ρ hi
+        split at h
+        · cases h; rfl
+        · obtain ⟨vs'', hvs'', h⟩ := bind_ok h
+          cases h
+          simp only [eval, castList_evalList opq hvs'', ih]
+  | .range t lo hi a b, e', h, hn, ρ, hinv => by
+      simp only [substE] at h
+      split at h
+      · rename_i ht; cases h; exact hrep ρ _ hinv ht
+      · obtain ⟨lo', hlo', h⟩ := bind_ok h
+        obtain ⟨hi', hhi', h⟩ := bind_ok h
+        have ih1 := substE_sem lo lo' hlo' (fun v hv => hn v (by simp [Expr.preorder, hv])) ρ hinv
+        have ih2 := substE_sem hi hi' hhi' (fun v hv => hn v (by simp [Expr.preorder, hv])) ρ hinv
+        split at h
+        · cases h; rfl
+        · obtain ⟨lo'', hlo'', h⟩ := bind_ok h
+          obtain ⟨hi'', hhi'', h⟩ := bind_ok h
+          cases h
+          simp only [eval, castE_eval opq hlo'', castE_eval opq hhi'', ih1, ih2]
+  | .quant t q y d b, e', h, hn, ρ, hinv => by
+      simp only [substE] at h
+      split at h
+      · rename_i ht; cases h; exact hrep ρ _ hinv ht
+      · obtain ⟨d', hd', h⟩ := bind_ok h
+        obtain ⟨b', hb', h⟩ := bind_ok h
+        have hy : y ≠ x := by
+          have := hn (.quant t q y d b) (by simp [Expr.preorder])
+          intro hc; subst hc; simp [bindsName] at this
+        have ih1 := substE_sem d d' hd' (fun v hv => hn v (by simp [Expr.preorder, hv])) ρ hinv
+        have ih2 : ∀ w, eval opq (ρ.bind y w) b' = eval opq (ρ.bind y w) b := fun w =>
+          substE_sem b b' hb' (fun v hv => hn v (by simp [Expr.preorder, hv])) (ρ.bind y w) (hbind ρ y w hinv hy)
+        split at h
+        · cases h; rfl
+        · rw [mkQuant_eval opq h]
+          simp only [eval, ih1, ih2]
+  | .un t op a, e', h, hn, ρ, hinv => by
+      simp only [substE] at h
+      split at h
+      · rename_i ht; cases h; exact hrep ρ _ hinv ht
+      · obtain ⟨a', ha', h⟩ := bind_ok h
+        have ih := substE_sem a a' ha' (fun v hv => hn v (by simp [Expr.preorder, hv])) ρ hinv
+        split at h
+        · cases h; rfl
+        · rw [mkUn_eval' opq h ρ t]; simp only [eval, ih]
+  | .bin t op a b, e', h, hn, ρ, hinv => by
+      simp only [substE] at h
+      split at h
+      · rename_i ht; cases h; exact hrep ρ _ hinv ht
+      · obtain ⟨a', ha', h⟩ := bind_ok h
+        obtain ⟨b', hb', h⟩ := bind_ok h
+        have ih1 := substE_sem a a' ha' (fun v hv => hn v (by simp [Expr.preorder, hv])) ρ hinv
+        have ih2 := substE_sem b b' hb' (fun v hv => hn v (by simp [Expr.preorder, hv])) ρ hinv
+        split at h
+        · cases h; rfl
+        · rw [mkBin_eval' opq h ρ t]; simp only [eval, ih1, ih2]
+  | .call t f as, e', h, hn, ρ, hinv => by
+      simp only [substE] at h
+      split at h
+      · rename_i ht; cases h; exact hrep ρ _ hinv ht
+      · obtain ⟨as', has', h⟩ := bind_ok h
+        have ih := substL_sem as as' has' (fun v hv => hn v (by simp [Expr.preorder, hv])) ρ hinv
+        split at h
+        · cases h; rfl
+        · rw [mkCall_eval' opq h ρ t]; simp only [eval, ih]
+  | .field t m n, e', h, hn, ρ, hinv => by
+      simp only [substE] at h
+      split at h
+      · rename_i ht; cases h; exact hrep ρ _ hinv ht
+      · obtain ⟨m', hm', h⟩ := bind_ok h
+        have ih := substE_sem m m' hm' (fun v hv => hn v (by simp [Expr.preorder, hv])) ρ hinv
+        split at h
+        · cases h; rfl
+        · rw [mkFieldT_eval opq h ρ]; simp only [eval, ih]
+  | .index t a i, e', h, hn, ρ, hinv => by
+      simp only [substE] at h
+      split at h
+      · rename_i ht; cases h; exact hrep ρ _ hinv ht
+      · obtain ⟨a', ha', h⟩ := bind_ok h
+        obtain ⟨i', hi', h⟩ := bind_ok h
+        have ih1 := substE_sem a a' ha' (fun v hv => hn v (by simp [Expr.preorder, hv])) ρ hinv
+        have ih2 := substE_sem i i' hi' (fun v hv => hn v (by simp [Expr.preorder, hv])) ρ hinv
+        split at h
+        · cases h; rfl
+        · rw [mkIndexT_eval opq h ρ]; simp only [eval, ih1, ih2]
+theorem substL_sem : ∀ (es es' : ExprList), substL test other es = .ok es' → NoBindL x es → ∀ ρ, Inv ρ →
+    evalList opq ρ es' = evalList opq ρ es
+  | .nil, es', h, _, ρ, _ => by simp only [substL] at h; cases h; rfl
+  | .cons e es, es', h, hn, ρ, hinv => by
+      simp only [substL] at h
+      obtain ⟨e', he', h⟩ := bind_ok h
+      obtain ⟨es'', hes', h⟩ := bind_ok h
+      cases h
+      simp only [evalList, substE_sem e e' he' (fun v hv => hn v (by simp [ExprList.preorder, hv])) ρ hinv,
+        substL_sem es es'' hes' (fun v hv => hn v (by simp [ExprList.preorder, hv])) ρ hinv]
+end
+end
+
+/-- the valuations in which the variable `x` is bound to the current message -/
+def BoundToThis (x : String) (ρ : Env) : Prop := ∃ v, ρ.vars.lookup x = some v ∧ eval opq ρ (.var 0 x) = .ok ρ.this
+
+theorem boundToThis_bind (x : String) (ρ : Env) (y : String) (v : Value) (h : BoundToThis opq x ρ) (hy : y ≠ x) :
+    BoundToThis opq x (ρ.bind y v) := by
+  obtain ⟨w, hw, he⟩ := h
+  simp only [eval, lookupVar] at he
+  rw [hw] at he
+  refine ⟨w, ?_, ?_⟩
+  · rw [lookup_bind]; simp [Ne.symm hy, hw]
+  · simp only [eval, lookupVar]; rw [lookup_bind]; simp only [beq_iff_eq, Ne.symm hy, ↓reduceIte, hw]
+    simpa [Env.bind] using he
+
+/-- **C13**: replacing the current-message reference by a variable and evaluating with that variable bound to the message
+    gives the original value (for a variable not captured by a quantifier) -/
+theorem replaceThisWithVar_sem (e e' : Expr) (x : String) (h : replaceThisWithVarE e x = .ok e') (hn : NoBind x e)
+    (ρ : Env) (hρ : BoundToThis opq x ρ) : eval opq ρ e' = eval opq ρ e := by
+  unfold replaceThisWithVarE Expr.replaceSelf at h
+  refine substE_sem opq isThis _ x (BoundToThis opq x) (fun ρ y v hi hy => boundToThis_bind opq x ρ y v hi hy) ?_ e e' h hn ρ hρ
+  intro ρ' n hi ht
+  cases n with
+  | this t =>
+    obtain ⟨w, hw, he⟩ := hi
+    simp only [eval] at he ⊢
+    exact he
+  | _ => simp [isThis] at ht
+
+/-- **C13**: symmetrically, replacing a variable by the current message -/
+theorem replaceVarWithThis_sem (e e' : Expr) (x : String) (h : replaceVarWithThisE e x = .ok e') (hn : NoBind x e)
+    (ρ : Env) (hρ : BoundToThis opq x ρ) : eval opq ρ e' = eval opq ρ e := by
+  unfold replaceVarWithThisE Expr.replaceVar at h
+  refine substE_sem opq (isVarNamed x) _ x (BoundToThis opq x) (fun ρ y v hi hy => boundToThis_bind opq x ρ y v hi hy) ?_ e e' h hn ρ hρ
+  intro ρ' n hi ht
+  cases n with
+  | var t y =>
+    have : x = y := by simpa [isVarNamed] using ht
+    subst this
+    obtain ⟨w, hw, he⟩ := hi
+    simp only [eval] at he ⊢
+    exact he.symm
+  | _ => simp [isVarNamed] at ht
+
+
+end
+
+/-! ## the own alias of an event is rewritten away -/
+theorem castList_containsRef : ∀ {t : DataType} {vs vs' : ExprList}, castList t vs = .ok vs' → ∀ a, vs'.containsRef a = vs.containsRef a
+  | _, .nil, vs', h, a => by simp only [castList] at h; cases h; rfl
+  | t, .cons e es, vs', h, a => by
+      simp only [castList] at h
+      obtain ⟨e', he', h⟩ := bind_ok h
+      obtain ⟨es', hes', h⟩ := bind_ok h
+      cases h
+      simp only [ExprList.containsRef, castE_containsRef he', castList_containsRef hes']
+
+theorem mkFieldT_containsRef {t : DataType} {m e : Expr} {n : String} (h : mkFieldT t m n = .ok e) (a : String) :
+    e.containsRef a = m.containsRef a := by
+  unfold mkFieldT at h
+  split at h
+  · cases h
+  · obtain ⟨m', hm', h⟩ := bind_ok h
+    cases h; simp only [Expr.containsRef, castE_containsRef hm']
+
+theorem mkIndexT_containsRef {t : DataType} {x i e : Expr} (h : mkIndexT t x i = .ok e) (a : String) :
+    e.containsRef a = (x.containsRef a || i.containsRef a) := by
+  unfold mkIndexT at h
+  split at h
+  · cases h
+  · obtain ⟨x', hx', h⟩ := bind_ok h
+    obtain ⟨i', hi', h⟩ := bind_ok h
+    cases h; simp only [Expr.containsRef, castE_containsRef hx', castE_containsRef hi']
+
+mutual
+/-- after replacing every `@a` by something that does not mention `a`, `a` no longer occurs -/
+theorem substE_removes (a : String) (other : Expr) (ho : other.containsRef a = false) :
+    ∀ (e e' : Expr), substE (isVarNamed a) other e = .ok e' → e'.containsRef a = false
+  | .lit .., e', h => by simp only [substE, isVarNamed] at h; cases h; rfl
+  | .this .., e', h => by simp only [substE, isVarNamed] at h; cases h; rfl
+  | .var t y, e', h => by
+      simp only [substE] at h; cases h
+      split
+      · exact ho
+      · rename_i hne; simpa [Expr.containsRef, isVarNamed] using hne
+  | .set t vs, e', h => by
+      simp only [substE, isVarNamed] at h
+      obtain ⟨vs', hvs', h⟩ := bind_ok h
+      have ih := substL_removes a other ho vs vs' hvs'
+      split at h
+      · rename_i heq; cases h; simp only [Expr.containsRef]; rw [← heq]; exact ih
+      · obtain ⟨vs'', hvs'', h⟩ := bind_ok h
+        cases h; simp only [Expr.containsRef, castList_containsRef hvs'', ih]
+  | .range t lo hi x y, e', h => by
+      simp only [substE, isVarNamed] at h
+      obtain ⟨lo', hlo', h⟩ := bind_ok h
+      obtain ⟨hi', hhi', h⟩ := bind_ok h
+      have ih1 := substE_removes a other ho lo lo' hlo'
+      have ih2 := substE_removes a other ho hi hi' hhi'
+      split at h
+      · rename_i heq; cases h; simp only [Expr.containsRef]; rw [← heq.1, ← heq.2, ih1, ih2]; rfl
+      · obtain ⟨lo'', hlo'', h⟩ := bind_ok h
+        obtain ⟨hi'', hhi'', h⟩ := bind_ok h
+        cases h; simp only [Expr.containsRef, castE_containsRef hlo'', castE_containsRef hhi'', ih1, ih2]; rfl
+  | .quant t q y d b, e', h => by
+      simp only [substE, isVarNamed] at h
+      obtain ⟨d', hd', h⟩ := bind_ok h
+      obtain ⟨b', hb', h⟩ := bind_ok h
+      have ih1 := substE_removes a other ho d d' hd'
+      have ih2 := substE_removes a other ho b b' hb'
+      split at h
+      · rename_i heq; cases h; simp only [Expr.containsRef]; rw [← heq.1, ← heq.2, ih1, ih2]; rfl
+      · rw [mkQuant_containsRef h, ih1, ih2]; rfl
+  | .un t op x, e', h => by
+      simp only [substE, isVarNamed] at h
+      obtain ⟨x', hx', h⟩ := bind_ok h
+      have ih := substE_removes a other ho x x' hx'
+      split at h
+      · rename_i heq; cases h; simp only [Expr.containsRef]; rw [← heq]; exact ih
+      · rw [mkUn_containsRef h, ih]
+  | .bin t op x y, e', h => by
+      simp only [substE, isVarNamed] at h
+      obtain ⟨x', hx', h⟩ := bind_ok h
+      obtain ⟨y', hy', h⟩ := bind_ok h
+      have ih1 := substE_removes a other ho x x' hx'
+      have ih2 := substE_removes a other ho y y' hy'
+      split at h
+      · rename_i heq; cases h; simp only [Expr.containsRef]; rw [← heq.1, ← heq.2, ih1, ih2]; rfl
+      · rw [mkBin_containsRef h, ih1, ih2]; rfl
+  | .call t f as, e', h => by
+      simp only [substE, isVarNamed] at h
+      obtain ⟨as', has', h⟩ := bind_ok h
+      have ih := substL_removes a other ho as as' has'
+      split at h
+      · rename_i heq; cases h; simp only [Expr.containsRef]; rw [← heq]; exact ih
+      · rw [mkCall_containsRef h, ih]
+  | .field t m n, e', h => by
+      simp only [substE, isVarNamed] at h
+      obtain ⟨m', hm', h⟩ := bind_ok h
+      have ih := substE_removes a other ho m m' hm'
+      split at h
+      · rename_i heq; cases h; simp only [Expr.containsRef]; rw [← heq]; exact ih
+      · rw [mkFieldT_containsRef h, ih]
+  | .index t x i, e', h => by
+      simp only [substE, isVarNamed] at h
+      obtain ⟨x', hx', h⟩ := bind_ok h
+      obtain ⟨i', hi', h⟩ := bind_ok h
+      have ih1 := substE_removes a other ho x x' hx'
+      have ih2 := substE_removes a other ho i i' hi'
+      split at h
+      · rename_i heq; cases h; simp only [Expr.containsRef]; rw [← heq.1, ← heq.2, ih1, ih2]; rfl
+      · rw [mkIndexT_containsRef h, ih1, ih2]; rfl
+theorem substL_removes (a : String) (other : Expr) (ho : other.containsRef a = false) :
+    ∀ (es es' : ExprList), substL (isVarNamed a) other es = .ok es' → es'.containsRef a = false
+  | .nil, es', h => by simp only [substL] at h; cases h; rfl
+  | .cons e es, es', h => by
+      simp only [substL] at h
+      obtain ⟨e', he', h⟩ := bind_ok h
+      obtain ⟨es'', hes', h⟩ := bind_ok h
+      cases h
+      simp only [ExprList.containsRef, substE_removes a other ho e e' he', substL_removes a other ho es es'' hes']; rfl
+end
+
+theorem mkPred_containsRef {e : Expr} {p : Pred} (h : mkPred e = .ok p) (a : String) : p.containsRef a = e.containsRef a := by
+  unfold mkPred at h
+  obtain ⟨e', he', h⟩ := bind_ok h
+  split at h
+  · cases h; simp only [Pred.containsRef, castE_containsRef he']
+  · cases h
+
+/-- **C13**: an event `t as A {f}` stores `f` with `@A` rewritten to the message itself: the stored predicate never
+    mentions `A`, and `A` is not among the event's external references -/
+theorem event_alias_normalised (n a : String) (p : Pred) (ev : Event) (ha : a ≠ "")
+    (h : mkSimpleEvent n (some a) p = .ok ev) :
+    ∃ p', ev = .simple n (some a) p' ∧ p'.containsRef a = false ∧ a ∉ ev.freeRefs := by
+  unfold mkSimpleEvent at h
+  simp only [ha, ne_eq, not_false_eq_true, ↓reduceIte] at h
+  obtain ⟨p', hp', h⟩ := bind_ok h
+  cases h
+  refine ⟨p', rfl, ?_, by simp [Event.freeRefs]⟩
+  cases p with
+  | vtrue => simp only [Pred.replaceVar] at hp'; cases hp'; rfl
+  | vfalse => simp only [Pred.replaceVar] at hp'; cases hp'; rfl
+  | expr e =>
+    simp only [Pred.replaceVar, Expr.replaceVar] at hp'
+    obtain ⟨e', he', hp'⟩ := bind_ok hp'
+    have hrem := substE_removes a (.this T.MESSAGE) rfl e e' he'
+    split at hp'
+    · rename_i heq; cases hp'; simp only [Pred.containsRef]; rw [← heq]; exact hrem
+    · rw [mkPred_containsRef hp']; exact hrem
+
+section
+variable (opq : Opaque)
+/-- ... and it means the same as writing the fields directly: under every valuation binding `A` to the current message the
+    stored predicate has the truth value of the written one -/
+theorem event_alias_sem (n a : String) (e : Expr) (ev : Event) (ha : a ≠ "") (hn : NoBind a e)
+    (h : mkSimpleEvent n (some a) (.expr e) = .ok ev) (ρ : Env) (hρ : BoundToThis opq a ρ) :
+    ∃ p', ev = .simple n (some a) p' ∧ predTruth opq ρ p' = truth opq ρ e := by
+  unfold mkSimpleEvent at h
+  simp only [ha, ne_eq, not_false_eq_true, ↓reduceIte] at h
+  obtain ⟨p', hp', h⟩ := bind_ok h
+  cases h
+  refine ⟨p', rfl, ?_⟩
+  simp only [Pred.replaceVar] at hp'
+  obtain ⟨e', he', hp'⟩ := bind_ok hp'
+  have hs := replaceVarWithThis_sem opq e e' a he' hn ρ hρ
+  split at hp'
+  · cases hp'; rfl
+  · rw [mkPred_truth opq hp']; unfold truth; rw [hs]
+end
+
+-- non-vacuity: `t as A {@A.x > x}` is stored as `{x > x}`
+example : mkSimpleEvent "t" (some "A") (.expr (.bin 1 ">" (.field 2 (.var 64 "A") "x") (.field 2 (.this 64) "x"))) =
+    .ok (.simple "t" (some "A") (.expr (.bin 1 ">" (.field 2 (.this 64) "x") (.field 2 (.this 64) "x")))) := by rfl
 
 end Hpl
